@@ -1,10 +1,19 @@
 import OmbottModel.Drv.Common
 import OmbottModel.Model.Router
 import OmbottModel.Model.RouterBuiltin
+import OmbottModel.Model.RouterBuiltinEnv
 /-!
 Protocol lines of the router model.  One line carries a whole history, so lines are stateless:
 
   `router hist <op> <op> …`          answer: one token per op, blank separated
+  `router histb <op> <op> …`         the same with the handlers of `int`, `float`, `path` computed by the
+                                     model (`Builtins.withBuiltin`): the shipped answers for those filters are
+                                     not consulted, except `float(text)` for numerals outside the exactly
+                                     modelled domain, looked up under `(float fid, matched text)`
+  `router bfilter <fid> <text> <fc>` the concrete handler of the built-in filter `fid` on `text`
+                                     (`fc` = the real `float(text)` as a value, used outside the exact domain)
+                                     → `~` | `<val>:<consumed>`
+  `router bfmt <val>`                the concrete `float` formatter → `ok.<hex>` | `none`
 
 ops (fields separated by `|`, text as hex of UTF-8, `~` = empty list / None):
   `A|rule|methods|name|overwrite|cerr`   `RadiRouter.add`; handler id = position of the op.
@@ -64,6 +73,16 @@ def envOf (t : EnvTable) : FilterEnv := fun f s =>
   | some (_, r) => r
   | none => none
 
+/-- `float(text)` outside the exactly modelled domain: the shipped answer of a `float` handler on
+exactly that text -/
+def fcOf (t : EnvTable) : Ombott.Builtins.FloatConv := fun m =>
+  match t.find? (fun e => Ombott.Builtins.isFloatFid e.1.1 && e.1.2 == m) with
+  | some (_, some r) => r.val
+  | _ => .conv "float:unlisted".toList
+
+/-- the environment of the `…b` lines: built-in handlers computed, the rest looked up -/
+def envOfB (t : EnvTable) : FilterEnv := Ombott.Builtins.withBuiltin (fcOf t) (envOf t)
+
 def parseCerr (s : String) : Option (List (Str × String)) :=
   if s == "~" then some [] else
   (s.splitOn ";").mapM fun e =>
@@ -103,7 +122,7 @@ def patternOf (R : Router) (id : Nat) : String :=
   | none => "?"
 
 /-- one op; `none` = not understood / outside the model's domain -/
-def stepOp (st : St) (idx : Nat) (op : String) : Option (St × String) :=
+def stepOpWith (envOf : EnvTable → FilterEnv) (st : St) (idx : Nat) (op : String) : Option (St × String) :=
   match splitBar op with
   | ["A", rule, methods, name, ow, cerr] => do
     let cerr ← parseCerr cerr
@@ -144,15 +163,29 @@ def stepOp (st : St) (idx : Nat) (op : String) : Option (St × String) :=
   | ["N"] => pure (st, "skip")
   | _ => none
 
-def runOps : St → Nat → List String → Option (List String)
+/-- one op with the shipped filter answers taken as they are -/
+def stepOp (st : St) (idx : Nat) (op : String) : Option (St × String) := stepOpWith envOf st idx op
+
+def runOps (envOf : EnvTable → FilterEnv) : St → Nat → List String → Option (List String)
   | _, _, [] => some []
   | st, i, op :: ops => do
-    let (st', out) ← stepOp st i op
-    let rest ← runOps st' (i + 1) ops
+    let (st', out) ← stepOpWith envOf st i op
+    let rest ← runOps envOf st' (i + 1) ops
     pure (out :: rest)
 
 def handle : List String → Option String
-  | "hist" :: ops => (runOps {} 0 ops).map fun outs => " ".intercalate outs
+  | "hist" :: ops => (runOps envOf {} 0 ops).map fun outs => " ".intercalate outs
+  | "histb" :: ops => (runOps envOfB {} 0 ops).map fun outs => " ".intercalate outs
+  | ["bfilter", f, text, fc] => do
+    let fcv ← if fc == "~" then some (Val.conv "float:unlisted".toList) else parseVal fc
+    pure (match Ombott.Builtins.builtinEnv (fun _ => fcv) (unhexStr f) (unhexStr text) with
+      | none => "~"
+      | some r => s!"{showVal r.val}:{r.n}")
+  | ["bfmt", v] => do
+    let v ← parseVal v
+    pure (match Ombott.Builtins.floatFmt v with
+      | some t => "ok." ++ hexStr t
+      | none => "none")
   -- `router builtin <filter> <conf> <text>`: reference semantics of a built-in filter
   --   → `~` | `<value text>:<consumed>`
   | ["builtin", f, conf, text] =>
